@@ -25,7 +25,7 @@ func c02Scenarios(tier string) []*Scenario {
 		}
 		out = append(out, sc1("C02", n+"|"+rpcName(rpc), tr, cancel, rpc))
 	}
-	rets := []string{"ret:st:5", "ret:plain", "ret:eof", "ret:canceled"}
+	rets := []string{"ret:st:5", "ret:plain", "ret:eof", "ret:canceled", "ret:okerr"}
 	if tier == "thorough" {
 		rets = append(rets, "ret:deadline", "ret:st:17", "ret:ok")
 	}
@@ -79,7 +79,7 @@ func c02Oracle(sc *Scenario, rec *Rec, s *mc.Sched) []mc.Violation {
 		}
 		if sc.Cancel == "" && !success && res != "nil" && ref.Status != "nil" {
 			// undisturbed: the handler's status, exactly
-			if statusCodeOf(res) != ref.Code && !(res == "EOF" && k > 0) {
+			if ref.Code != "any" && statusCodeOf(res) != ref.Code && !(res == "EOF" && k > 0) {
 				add("wrong-status", fmt.Sprintf("handler returned %s, receive #%d reported %s", ref.Code, k, normFinal(res)))
 			}
 		}
